@@ -295,3 +295,93 @@ def r_leb(repo, tier):
             out.report(UTILS, "write_sleb128", "termination values %s" % sorted(vals), term.lineno, "the writer must stop when the remaining value is 0 (non-negative) or -1 (negative)")
     out.stats["checks"] = n
     return out
+
+
+# ======================================================================================= psize is forwarded everywhere
+_LAYOUT_METHODS = ("size", "align", "align_value", "unpack", "pack", "offset_of", "offsets", "get", "format")
+
+
+def r_psize(repo, tier):
+    out = RuleOut(
+        "R-PSIZE",
+        "in system/structs/core.py and fields.py every method that takes the pointer size `psize` forwards it in every call to a "
+        "layout method (size, align, align_value, unpack, pack, offset_of, offsets, get, format) of a field, a type, self, cls or "
+        "super(): a step that omits it uses the host's native pointer size while its siblings use the requested one",
+    )
+    n = 0
+    for rel in (CORE, FIELDS):
+        m = repo.mod(rel)
+        for f in m.functions.values():
+            if "psize" not in f.params() or f.cls is None:
+                continue
+            rebound = any(isinstance(x, ast.Name) and x.id == "psize" and isinstance(x.ctx, ast.Store) for x in ast.walk(f.node))
+            for c in ast.walk(f.node):
+                if not (isinstance(c, ast.Call) and isinstance(c.func, ast.Attribute) and c.func.attr in _LAYOUT_METHODS):
+                    continue
+                recv = c.func.value
+                if isinstance(recv, ast.Name) and recv.id in ("struct", "codecs", "logger"):
+                    continue
+                if isinstance(recv, ast.Dict):
+                    continue  # {32: 4, 64: 8}.get(psize, psize)
+                if isinstance(recv, ast.Constant):
+                    continue  # "..".format(..)
+                if isinstance(recv, ast.Call) and norm(recv.func) in ("str", "repr"):
+                    continue
+                n += 1
+                passes = any(isinstance(k, ast.Name) and k.id == "psize" for a in c.args for k in ast.walk(a)) or any(isinstance(k2, ast.Name) and k2.id == "psize" for k in c.keywords for k2 in ast.walk(k.value))
+                out.inst("%s::%s@%d" % (f.key, norm(c)[:60], c.lineno), {"method": f.dqual, "call": norm(c)[:80], "forwards_psize": passes})
+                if not passes:
+                    out.report(rel, f.dqual, "%s without psize" % norm(c)[:80], c.lineno, "%s takes psize but calls %s without it: this step is computed for the host's pointer size, the others for the requested one" % (f.dqual, norm(c)[:80]))
+    out.stats["calls"] = n
+    if n < 35:
+        raise AnalysisError("R-PSIZE: only %d layout calls in psize-taking methods" % n)
+    return out
+
+
+# ======================================================================================= element-wise advance of the read cursor
+def r_elemadv(repo, tier):
+    out = RuleOut(
+        "R-ELEMADV",
+        "in every loop of the structure layer that unpacks an element at a cursor (`x = <..>.unpack(data, cur, ..)`) and advances "
+        "that cursor inside the loop, the amount added depends on what was unpacked in this iteration (the value x, or the loop's "
+        "own field/element variable): elements may differ in length (variable-length members), so a step computed once outside the "
+        "loop reads the later elements from the wrong offsets",
+    )
+    n = 0
+    for rel in (CORE, FIELDS):
+        m = repo.mod(rel)
+        for f in m.functions.values():
+            for loop in ast.walk(f.node):
+                if not isinstance(loop, (ast.For, ast.While)):
+                    continue
+                body = [x for s in loop.body for x in ast.walk(s)]
+                unpacks = []
+                for x in body:
+                    if isinstance(x, ast.Assign) and isinstance(x.value, ast.Call) and isinstance(x.value.func, ast.Attribute) and x.value.func.attr == "unpack" and len(x.value.args) >= 2 and isinstance(x.value.args[1], ast.Name) and isinstance(x.targets[0], ast.Name):
+                        unpacks.append((x.targets[0].id, x.value.args[1].id, x))
+                    elif isinstance(x, ast.Call) and isinstance(x.func, ast.Attribute) and x.func.attr in ("append", "extend") and x.args and isinstance(x.args[0], ast.Call) and isinstance(x.args[0].func, ast.Attribute) and x.args[0].func.attr == "unpack" and len(x.args[0].args) >= 2 and isinstance(x.args[0].args[1], ast.Name):
+                        unpacks.append((None, x.args[0].args[1].id, x))
+                if not unpacks:
+                    continue
+                loopvars = {k.id for k in ast.walk(loop.target) if isinstance(k, ast.Name)} if isinstance(loop, ast.For) else set()
+                # names assigned inside the loop body (per-iteration values)
+                inner = {k.id for x in body if isinstance(x, ast.Name) and isinstance(x.ctx, ast.Store) for k in [x]}
+                for val, cur, st in unpacks:
+                    for x in body:
+                        e = None
+                        if isinstance(x, ast.AugAssign) and isinstance(x.op, ast.Add) and isinstance(x.target, ast.Name) and x.target.id == cur:
+                            e = x.value
+                        elif isinstance(x, ast.Assign) and isinstance(x.targets[0], ast.Name) and x.targets[0].id == cur and isinstance(x.value, ast.BinOp) and isinstance(x.value.op, ast.Add) and cur in {k.id for k in ast.walk(x.value) if isinstance(k, ast.Name)}:
+                            e = x.value
+                        if e is None:
+                            continue
+                        names = {k.id for k in ast.walk(e) if isinstance(k, ast.Name)} - {cur}
+                        per_iter = bool(names & ((inner - {cur}) | loopvars | ({val} if val else set())))
+                        n += 1
+                        out.inst("%s::%s" % (f.key, norm(x)), {"function": f.dqual, "unpack": norm(st)[:70], "advance": norm(x), "depends_on_this_iteration": per_iter})
+                        if not per_iter and names:
+                            out.report(rel, f.dqual, "advance %s" % norm(x), x.lineno, "the cursor %s is advanced by `%s`, which is computed outside the loop, after `%s`: every later element is assumed to be as long as that one" % (cur, norm(e), norm(st)[:60]))
+    out.stats["advances"] = n
+    if n < 1:
+        raise AnalysisError("R-ELEMADV: no element loop found (anchor changed)")
+    return out
